@@ -1,0 +1,44 @@
+// Copyright The gittuf Authors
+// SPDX-License-Identifier: Apache-2.0
+
+//go:build verif
+
+package gitinterface
+
+import (
+	"time"
+
+	"github.com/jonboulle/clockwork"
+)
+
+// This file is only compiled with the `verif` build tag.
+
+// VerifExecHook, when set, is called before every git subprocess a Repository
+// spawns with the repository's GIT_DIR and the git arguments (without the
+// --git-dir prefix). A non-nil error is returned to the caller in place of
+// running git.
+var VerifExecHook func(gitDir string, args []string) error
+
+// VerifExecDoneHook, when set, is called after every git subprocess with its
+// arguments and the error git returned. Its return value replaces that error.
+var VerifExecDoneHook func(gitDir string, args []string, err error) error
+
+func verifExecHook(e *executor) error {
+	if VerifExecHook == nil {
+		return nil
+	}
+	return VerifExecHook(e.r.gitDirPath, e.args)
+}
+
+func verifExecDoneHook(e *executor, args []string, err error) error {
+	if VerifExecDoneHook == nil {
+		return err
+	}
+	return VerifExecDoneHook(e.r.gitDirPath, args, err)
+}
+
+// VerifSetClock makes the repository take commit timestamps from a fixed
+// instant so that object IDs are reproducible.
+func (r *Repository) VerifSetClock(t time.Time) {
+	r.clock = clockwork.NewFakeClockAt(t)
+}
